@@ -17,6 +17,10 @@ def fault_model(rng, toks, golden_slow=False):
         ['contains', 'count', 'subseq', 'mixed', 'hash']), require_wf=False,
         dur=d)
     cl = spec['classes']
+    if rng.random() < 0.3:
+        # the golden behaviour is a death by SIGKILL / SIGXCPU (OOM killer,
+        # CPU limit): exactly what a limit kill looks like
+        cl['bug']['exit'] = rng.choice([-9, -9, -24])
     cl['hang'] = {'exit': 0, 'out': '', 'err': '', 'beh': ['hang']}
     cl['spin'] = {'exit': 0, 'out': '', 'err': '',
                   'beh': ['spin', rng.choice([1, 1, 2, 4])]}
@@ -82,7 +86,10 @@ class C10(props.Prop):
                              'never-printed']
         if scen == 'match_golden_timeout':
             spec['opts'] += [rng.choice(['--match-out', '--match-err']), 'bug']
-        if scen == 'faults' and rng.random() < 0.3:
+        if scen in ('faults', 'golden_slow') and rng.random() < 0.3:
+            spec['opts'] += rng.choice([['--ignore-output'],
+                                        ['--ignore-out', '--ignore-err']])
+        elif scen == 'faults' and rng.random() < 0.3:
             o = gen_cmd.CmdModel(spec['model']).on_tokens(toks)
             spec['opts'] += gen_cmd.gen_compare_opts(rng,
                                                      (o.exit, o.out, o.err))
